@@ -980,21 +980,30 @@ func ruleFileOrderGrowth(c *Ctx) {
 				hasTest := false
 				// a verdict helper / set type: absence from some set is necessary for reaching the append
 				{
-					blks := []*ssa.BasicBlock{b}
-					for g, depth := f, 0; depth < 2; depth++ {
-						sites := (cgView{c}).callersOf(g)
-						if len(sites) != 1 {
-							break
-						}
-						blks = append(blks, sites[0].Block())
-						g = sites[0].Parent()
-					}
-					for _, blk := range blks {
+					// ... at the append itself, or at every call site of its function (two levels)
+					var absent func(blk *ssa.BasicBlock, depth int) bool
+					absent = func(blk *ssa.BasicBlock, depth int) bool {
 						for _, m := range blockMemberships(blk) {
 							if !m.pos {
-								hasTest = true
+								return true
 							}
 						}
+						if depth >= 2 {
+							return false
+						}
+						sites := (cgView{c}).callersOf(blk.Parent())
+						if len(sites) == 0 {
+							return false
+						}
+						for _, site := range sites {
+							if !absent(site.Block(), depth+1) {
+								return false
+							}
+						}
+						return true
+					}
+					if absent(b, 0) {
+						hasTest = true
 					}
 				}
 				for _, cc := range controlCondsPol(b) {
